@@ -93,6 +93,7 @@ type Sched struct {
 	hostPanic  any
 	nextObj    int
 	acc        map[unsafe.Pointer]*accessInfo
+	rangeW     []rangeWrite // whole-object writes (*p = T{..}), checked against later accesses inside the object
 	atomVC     map[unsafe.Pointer]*vclock
 	raceSeen   map[string]bool
 	enabledBuf []*G
@@ -1382,6 +1383,11 @@ type accessInfo struct {
 	reads []epoch
 }
 
+type rangeWrite struct {
+	lo, hi uintptr
+	e      epoch
+}
+
 func (s *Sched) hb(e *epoch, g *G) bool { return e.g == g.id || e.clock <= g.vc.get(e.g) }
 
 func (s *Sched) access(p unsafe.Pointer, write, atomic bool, name string) {
@@ -1409,6 +1415,19 @@ func (s *Sched) access(p unsafe.Pointer, write, atomic bool, name string) {
 			report(a.w, "write/write")
 		} else {
 			report(a.w, "write/read")
+		}
+	}
+	if len(s.rangeW) > 0 {
+		up := uintptr(p)
+		for i := range s.rangeW {
+			rw := &s.rangeW[i]
+			if up >= rw.lo && up < rw.hi && !s.hb(&rw.e, g) {
+				if write {
+					report(&rw.e, "write/write")
+				} else {
+					report(&rw.e, "write/read")
+				}
+			}
 		}
 	}
 	if write {
@@ -1443,6 +1462,29 @@ func Rd[T any](p *T, name string) *T {
 func Wr[T any](p *T, name string) *T {
 	if s := active(); s != nil && s.opts.Race {
 		s.access(unsafe.Pointer(p), true, false, name)
+	}
+	return p
+}
+
+// WrAll marks a plain write of the whole object *p (an assignment through the
+// pointer: *p = T{...}) and returns p. It conflicts with every unordered
+// access to a field or element inside the object, before or after.
+func WrAll[T any](p *T, name string) *T {
+	if s := active(); s != nil && s.opts.Race {
+		lo := uintptr(unsafe.Pointer(p))
+		hi := lo + unsafe.Sizeof(*p)
+		var inside []unsafe.Pointer
+		for q := range s.acc {
+			if up := uintptr(q); up >= lo && up < hi {
+				inside = append(inside, q)
+			}
+		}
+		sort.Slice(inside, func(i, j int) bool { return uintptr(inside[i]) < uintptr(inside[j]) })
+		for _, q := range inside {
+			s.access(q, true, false, name)
+		}
+		g := s.cur
+		s.rangeW = append(s.rangeW, rangeWrite{lo, hi, epoch{g: g.id, clock: g.vc.get(g.id), name: name, gname: g.name}})
 	}
 	return p
 }
